@@ -419,6 +419,103 @@ theorem C05_unreachable_mdl_is_baseline (sched : Nat → List SurveyIn)
   · intro p s g c N
     exact run_eq_baseline_of_no_events p _ (fun d => dayEvents_nil_of_quiet (sched d) s g c (hq d)) N
 
+/-! ### the same over mixed events (`runE`): also the "initially detected" fields stay as in the baseline -/
+
+private theorem dayEventsE_nil_of_quiet (svs : List SurveyIn) (s g c id : Nat)
+    (h : ∀ sv ∈ svs, Quiet (surveyOf sv)) : dayEventsE svs s g c id = [] := by
+  unfold dayEventsE
+  simp only [List.flatMap_eq_nil_iff]
+  intro sv hsv
+  unfold surveyEventsE tagEvents
+  rw [(h sv hsv).2.1, (h sv hsv).2.2]
+  simp
+
+private theorem runE_eq_baseline_of_no_events (p : Emission.Params) (ev : Nat → List Emission.Ev)
+    (h : ∀ d, ev d = []) (N : Nat) : Emission.runE p ev N = Emission.baseline p N := by
+  induction N with
+  | zero => rfl
+  | succ n ih =>
+    show Emission.dayE p n (ev n) (Emission.runE p ev n)
+      = Emission.day p n (Emission.noEvents n) (Emission.run p Emission.noEvents n)
+    rw [ih, h n]; rfl
+
+/-- zero coverage / unreachable limit, over tag requests *and* the detection-only records of
+site-scale sensors: the complete state of every emission (including `initDetect`, `initDetectBy`)
+after any number of days equals its no-LDAR state. -/
+theorem C05_zero_coverage_is_baseline_E (sched : Nat → List SurveyIn)
+    (h : ∀ d, ∀ sv ∈ sched d, ZeroCoverage sv.m sv.xs) (p : Emission.Params) (s g c id N : Nat) :
+    Emission.runE p (fun d => dayEventsE (sched d) s g c id) N = Emission.baseline p N :=
+  runE_eq_baseline_of_no_events p _ (fun d => dayEventsE_nil_of_quiet (sched d) s g c id
+    (fun sv hsv => C05_zero_coverage_is_quiet sv.cfg sv.m sv.mdl sv.site sv.xs (h d sv hsv))) N
+
+theorem C05_unreachable_mdl_is_baseline_E (sched : Nat → List SurveyIn)
+    (h : ∀ d, ∀ sv ∈ sched d, UnreachableMdl sv.mdl sv.xs) (p : Emission.Params) (s g c id N : Nat) :
+    Emission.runE p (fun d => dayEventsE (sched d) s g c id) N = Emission.baseline p N :=
+  runE_eq_baseline_of_no_events p _ (fun d => dayEventsE_nil_of_quiet (sched d) s g c id
+    (fun sv hsv => C05_unreachable_mdl_is_quiet sv.cfg sv.m sv.mdl sv.site sv.xs (h d sv hsv))) N
+
+/-! ### the spatial outcome over the whole life of an emission -/
+
+/-- whatever happens to an emission after an outcome `b` for method `m` has been stored — surveys by
+`m` or by other methods at any site with any rolls, activation, tagging, daily updates, intermittency
+toggles, repair, expiry (all of which only move it between lists / switch it on and off) — the stored
+outcome stays `b`, and no later survey by `m` draws a spatial roll for it. -/
+theorem C05_sticky_whole_life (m : Nat) (b : Bool) (steps : List LifeStep) (e : Emis)
+    (h : covOf m e = some b) :
+    covOf m (life e steps) = some b ∧
+    ∀ s r, (detectOne m s (life e steps, r)).sRoll = false ∧ spatialOutcome m (life e steps) r = b := by
+  have key : covOf m (life e steps) = some b := by
+    induction steps generalizing e with
+    | nil => exact h
+    | cons st steps ih =>
+      apply ih
+      cases st with
+      | survey m' s r =>
+        by_cases hm : m' = m
+        · subst hm
+          exact ((C05_spatial_sticky_survey m' s (e, r)).1 b h).2.2
+        · show covOf m (detectOne m' s (e, r)).e = some b
+          rw [detectOne_other m m' s (e, r) hm]; exact h
+      | world a em => exact h
+  refine ⟨key, ?_⟩
+  intro s r
+  have := (C05_spatial_sticky_survey m s (life e steps, r)).1 b key
+  exact ⟨this.2.1, this.1⟩
+
+/-! ### the "flags" clause
+
+Full strength: a site enters the follow-up machinery only with a non-zero measured rate.  It holds
+under positive thresholds and is **false of the code** for an instant threshold ≤ 0 (mobile) and for
+a small-window threshold ≤ 0 (stationary; 0.0 is the shipped default): known findings
+`C05-flag-zero-measured-instant-threshold`, `C05-flag-zero-measured-stationary`. -/
+
+def C05_flag_statement : Prop :=
+  (∀ (inst : Option Int) (thr m : Int), flagCandidate inst thr m = true → m ≠ 0) ∧
+  (∀ (smallThr m : Int), flagStationaryFresh smallThr m = true → m ≠ 0)
+
+/-- stationary, first record of a site: with a positive small-window threshold the site is not
+queued (whatever was measured) -/
+theorem C05_flag_needs_detection_stationary (smallThr m : Int) (h : 0 < smallThr) :
+    flagStationaryFresh smallThr m = false := by
+  unfold flagStationaryFresh; simp; omega
+
+theorem C05_flag_partial :
+    (∀ (inst : Option Int) (thr m : Int), (∀ i, inst = some i → 0 < i) →
+        flagCandidate inst thr m = true → m ≠ 0) ∧
+    (∀ (smallThr m : Int), 0 < smallThr → flagStationaryFresh smallThr m = true → m ≠ 0) := by
+  refine ⟨fun inst thr m hi h => C05_flag_needs_detection inst thr m hi h, ?_⟩
+  intro smallThr m h hf
+  rw [C05_flag_needs_detection_stationary smallThr m h] at hf
+  exact absurd hf (by decide)
+
+/-- witnesses: instant threshold 0 queues a site with measured rate 0 (ordinary threshold 5);
+a stationary method with small-window threshold 0 queues a site on its first record, measured 0 -/
+theorem C05_flag_counterexample : ¬ C05_flag_statement ∧
+    flagCandidate (some 0) 5 0 = true ∧ flagStationaryFresh 0 0 = true := by
+  refine ⟨?_, by decide, by decide⟩
+  intro h
+  exact h.1 (some 0) 5 0 (by decide) rfl
+
 /-! ### the property at full strength -/
 
 def C05_statement : Prop :=
